@@ -66,6 +66,10 @@ def gen_templates(rng, n):
         # CTL / Control are ordinary, visible member names in a user type (they are private only in predefined types)
         names = rng.sample(["Val", "count", "x", "Y1", "flag", "mode", "Arr", "inner", "txt", "spare", "LEN", "DATA", "Speed_Ref",
                             "CTL", "Control"], nm)
+        if names == ["LEN", "DATA"]:
+            # exactly the shape the driver recognises as a string type (attributes LEN, DATA with DATA a SINT array): string
+            # types are generated on purpose above, with the memory layout and the reference interpretation of a string
+            names = ["LEN", "DATA", "Val"]
         for j, mn in enumerate(names):
             r = rng.random()
             if r < 0.25:
